@@ -151,6 +151,22 @@ theorem C19_provider_refuses_on_lookup_error (mac : Str → Str → List UInt8) 
   | legacyRemote _ _ _ _ hlk' _ _ => rw [hlk] at hlk'; cases hlk'
   | legacyLocal _ _ _ _ hlk' _ _ => rw [hlk] at hlk'; cases hlk'
 
+/-- One incoming request forwarded to several remote clusters (in any order, with repetitions): the
+provider of the i-th remote answers from the caller's ORIGINAL credentials — what an earlier remote
+was sent has no influence. In particular an unsalted v2 token at position j goes to the i-th remote
+salted for THAT remote. -/
+theorem C19_provider_history_free (mac : Str → Str → List UInt8) (lookup : Str → Lookup)
+    (ts : List Str) (remotes : List Str) (i : Nat) (hi : i < remotes.length) :
+    (provSeq mac lookup (some ts) remotes)[i]'(by simpa [provSeq] using hi) =
+      provider mac remotes[i] lookup (some ts) ∧
+    (∀ out j (h1 : j < ts.length) (h2 : j < out.length) u s more,
+      provider mac remotes[i] lookup (some ts) = .ok out →
+      splitSlash ts[j] = sV2 :: u :: s :: more → s.length ≠ 40 →
+      out[j] = saltedForm mac u s remotes[i]) := by
+  refine ⟨by simp [provSeq], ?_⟩
+  intro out j h1 h2 u s more hp hsp hl
+  exact C19_forwarded_v2 mac remotes[i] lookup ts out hp j h1 h2 u s more hsp hl
+
 /-- Without credentials in the request context the provider fails; an error means no token (and
 no request) goes out. -/
 theorem C19_provider_no_credentials (mac : Str → Str → List UInt8) (R : Str) (lookup : Str → Lookup) :
